@@ -1,11 +1,121 @@
-(* C04 - branch lifecycle incl. hibernation.  (statements are completed below as the proofs land) *)
-From Coq Require Import List ZArith.
-From Herc Require Import Plan.Syntax Plan.Exec Plan.Graph Plan.Checker Plan.GC Plan.Hibernate Plan.Lifecycle.
+(* C04 - branch lifecycle incl. hibernation. *)
+From Coq Require Import List ZArith Permutation.
+From Coq Require Import Sorted.
+From Herc Require Import Plan.Syntax Plan.Exec Plan.Graph Plan.Checker Plan.Spec Plan.GC Plan.Hibernate Plan.Lifecycle
+  Plan.LifecycleProofs Plan.GCProofs Plan.HibernateProofs.
 Import ListNotations.
-Open Scope Z_scope.
+Local Open Scope nat_scope.
 
-Example C04_checker_accepts_diamond :
-  c04_ok [[]; [0%nat]; [0%nat]; [1%nat; 2%nat]]
-    [emerge 1 (Some 0%nat); commit_on 0 1; mkA KFork (Some 0%nat) [1; 2]; commit_on 1 1; commit_on 2 2;
-     commit_on 3 1; commit_on 3 2; merge_of [1; 2]; delete 2] = true.
+(* The checker of full plans (what ./check C04 runs on every plan of the real planner, for every hibernation distance)
+   implies: every action is executed in a state that allows it ([lifecycle_ok], see Lifecycle.v [step_ok]: creation only of
+   absent branches, commit / fork source / merge participants / delete / hibernate only on live awake branches, merge
+   participants distinct, boot only of hibernated branches), nothing is left hibernated, every merge joins live branches
+   that analysed the same merge commit last, and with a single head the branch Run takes the results from (the smallest
+   surviving index) has incorporated every analysed commit. *)
+Theorem C04_checker_sound : forall (g : list (list nat)) (p : list action), c04_ok g p = true ->
+  lifecycle_ok p /\
+  nothing_hibernated (run init p) /\
+  (forall p1 m p2, p = p1 ++ m :: p2 -> kind m = KMerge -> merge_ok g (run init p1) m) /\
+  (single_head g (analysed p) ->
+   exists b, master_of (run init p) b /\ forall c, replayed c p -> In c (inc_of (get (run init p) b))).
+Proof. exact c04_checker_sound. Qed.
+Print Assumptions C04_checker_sound.
+
+Example C04_checker_accepts_hibernated_diamond :
+  c04_ok [[]; [0]; [0]; [1; 2]]
+    [emerge 1 (Some 0); commit_on 0 1; mkA KFork (Some 0) [1%Z; 2%Z]; mkA KHibernate (Some 0) [2%Z]; commit_on 1 1;
+     mkA KBoot (Some 2) [2%Z]; commit_on 2 2;
+     commit_on 3 1; commit_on 3 2; merge_of [1%Z; 2%Z]; delete 2] = true.
 Proof. vm_compute. reflexivity. Qed.
+
+(* using a hibernated branch, and a delete before the last use, are rejected *)
+Example C04_checker_rejects_use_while_hibernated :
+  c04_ok [[]; [0]; [0]; [1; 2]]
+    [emerge 1 (Some 0); commit_on 0 1; mkA KFork (Some 0) [1%Z; 2%Z]; mkA KHibernate (Some 0) [2%Z]; commit_on 1 1;
+     commit_on 2 2; commit_on 3 1; commit_on 3 2; merge_of [1%Z; 2%Z]; delete 2] = false.
+Proof. vm_compute. reflexivity. Qed.
+Example C04_checker_rejects_early_delete :
+  c04_ok [[]; [0]; [0]; [1; 2]]
+    [emerge 1 (Some 0); commit_on 0 1; mkA KFork (Some 0) [1%Z; 2%Z]; commit_on 1 1; commit_on 2 2;
+     commit_on 3 1; delete 2; commit_on 3 2; merge_of [1%Z; 2%Z]] = false.
+Proof. vm_compute. reflexivity. Qed.
+
+(* ---------- collectGarbage (model GC.v, tied to the Go function by replay) ----------
+   [pre_ok p]: the input only uses live branches ([lifecycle_ok p]), holds no delete / hibernate / boot yet and its branch
+   ids are >= rootBranchIndex (what generatePlan emits; checked per plan by pre_okb).  For EVERY such plan the model does not
+   panic, its output has a sound lifecycle (in particular: a branch is disposed only after its last use and never used
+   afterwards) and erasing the deletes gives back the input. *)
+Theorem C04_gc : forall p : list action, pre_ok p ->
+  exists p', collect_garbage p = Some p' /\ lifecycle_ok p' /\ erase_deletes p' = p.
+Proof. exact gc_sound. Qed.
+Print Assumptions C04_gc.
+
+(* the same for every outcome of Go's map iteration + unstable sort.Slice: any arrangement of the (index, branch) pairs
+   that is sorted by index *)
+Theorem C04_gc_any_order : forall p : list action, pre_ok p ->
+  exists m, last_mentioned p 0 [] = Some m /\
+    forall arr, Permutation (gc_arr m (length p)) arr -> StronglySorted (fun x y => fst x <= fst y) arr ->
+      lifecycle_ok (gc_emit p arr) /\ erase_deletes (gc_emit p arr) = p.
+Proof. exact gc_correct. Qed.
+Print Assumptions C04_gc_any_order.
+
+Definition diamond_gen : list action :=
+  [emerge 1 (Some 0); commit_on 0 1; mkA KFork (Some 0) [1%Z; 2%Z]; commit_on 1 1; commit_on 2 2;
+   commit_on 3 1; commit_on 3 2; merge_of [1%Z; 2%Z]; commit_on 4 1].
+Example C04_gc_hypothesis_satisfiable : pre_ok diamond_gen.
+Proof. apply pre_okb_spec. vm_compute. reflexivity. Qed.
+Example C04_gc_on_diamond :
+  collect_garbage diamond_gen =
+  Some [emerge 1 (Some 0); commit_on 0 1; mkA KFork (Some 0) [1%Z; 2%Z]; commit_on 1 1; commit_on 2 2;
+        commit_on 3 1; commit_on 3 2; merge_of [1%Z; 2%Z]; delete 2; commit_on 4 1].
+Proof. vm_compute. reflexivity. Qed.
+
+(* ---------- insertHibernateBoot (model Hibernate.v, tied to the Go function by replay) ----------
+   For EVERY plan with a sound lifecycle that holds no hibernate / boot yet ([hb_kind]) and EVERY distance d (any integer):
+   the output has a sound lifecycle in the sense of [lifecycle_ok] - every use (commit, fork source, merge participant,
+   delete, hibernate) finds the branch live and AWAKE, i.e. a hibernated branch is booted before its next use, is never
+   hibernated twice and never disposed while hibernated; only hibernated branches are booted - nothing is left hibernated
+   at the end, and erasing hibernate/boot gives back the input. *)
+Theorem C04_hib : forall (p : list action) (d : Z), lifecycle_ok p -> Forall hb_kind p ->
+  lifecycle_ok (insert_hb p d) /\
+  nothing_hibernated (run init (insert_hb p d)) /\
+  erase_hb (insert_hb p d) = p.
+Proof. exact hib_sound. Qed.
+Print Assumptions C04_hib.
+
+(* the two stages composed, as prepareRunPlan does after generatePlan *)
+Theorem C04_gc_then_hib : forall (p : list action) (d : Z), pre_ok p ->
+  exists p', collect_garbage p = Some p' /\
+    lifecycle_ok (insert_hb p' d) /\ nothing_hibernated (run init (insert_hb p' d)) /\
+    erase_deletes (erase_hb (insert_hb p' d)) = p.
+Proof.
+  intros p d H. destruct (gc_sound p H) as [p' [E [L R]]]. exists p'. split; [exact E|].
+  assert (F : Forall hb_kind p').
+  { apply Forall_forall. intros a Ha.
+    assert (K : In a p \/ kind a = KDelete).
+    { destruct (is_kind KDelete a) eqn:Kd.
+      - right. apply kind_eqb_eq. exact Kd.
+      - left. rewrite <- R. apply filter_In. split; [exact Ha|]. rewrite Kd. reflexivity. }
+    destruct K as [K|K].
+    - destruct H as [_ G]. rewrite Forall_forall in G. destruct (G a K) as [[Gk|[Gk|[Gk|Gk]]] _]; split; rewrite Gk; discriminate.
+    - split; rewrite K; discriminate. }
+  destruct (hib_sound p' d L F) as [L' [N' E']]. split; [exact L'|]. split; [exact N'|]. rewrite E'. exact R.
+Qed.
+Print Assumptions C04_gc_then_hib.
+
+Definition diamond_gc : list action :=
+  [emerge 1 (Some 0); commit_on 0 1; mkA KFork (Some 0) [1%Z; 2%Z]; commit_on 1 1; commit_on 2 2;
+   commit_on 3 1; commit_on 3 2; merge_of [1%Z; 2%Z]; delete 2; commit_on 4 1].
+Example C04_hib_hypotheses_satisfiable : lifecycle_ok diamond_gc /\ Forall hb_kind diamond_gc.
+Proof. split; [apply lifecycleb_sound | apply hb_inputb_spec]; vm_compute; reflexivity. Qed.
+Example C04_hib_on_diamond :
+  insert_hb diamond_gc 0%Z =
+  [emerge 1 (Some 0); commit_on 0 1; mkA KFork (Some 0) [1%Z; 2%Z]; mkA KHibernate (Some 0) [2%Z];
+   commit_on 1 1; mkA KHibernate (Some 1) [1%Z];
+   mkA KBoot (Some 2) [2%Z]; commit_on 2 2; mkA KHibernate (Some 2) [2%Z];
+   mkA KBoot (Some 3) [1%Z]; commit_on 3 1; mkA KHibernate (Some 3) [1%Z];
+   mkA KBoot (Some 3) [2%Z]; commit_on 3 2;
+   mkA KBoot None [1%Z]; merge_of [1%Z; 2%Z]; mkA KHibernate None [1%Z]; delete 2;
+   mkA KBoot (Some 4) [1%Z]; commit_on 4 1] /\
+  hb_outb (insert_hb diamond_gc 0%Z) = true /\ insert_hb diamond_gc 1%Z = diamond_gc.
+Proof. vm_compute. repeat split; reflexivity. Qed.
